@@ -1,6 +1,10 @@
 import PiqpProofs.Basic
 import PiqpModel.Pack
 import PiqpModel.Solver
+import PiqpModel.Api
+import Mathlib.Tactic.Ring
+import Mathlib.Algebra.BigOperators.Ring.Finset
+import Mathlib.Algebra.Order.BigOperators.Group.Finset
 import Mathlib.Tactic.Linarith
 import Mathlib.Algebra.Order.Field.Basic
 
@@ -563,6 +567,233 @@ theorem mainLoop_in_cone (e : Env K n p m) (ls : LoopState K n p m) (hτ0 : 0 < 
   unfold mainLoop
   exact loopG_invariant e.st e.cs (realOps e) (fun s : NumState K n p m => InCone e.data s.1)
     (realOps_preserve_cone e hτ0 hτ1 heps) ls.c (ls.w, ls.kkt) ls.info hc
+
+
+/-! ### The initial point: Mehrotra-style shifts put every active slack and multiplier strictly inside the cone -/
+
+open Finset
+
+theorem minFin_le (init : K) : ∀ (q : Nat) (f : Fin q → K) (i : Fin q), minFin init q f ≤ f i
+  | 0, _, i => i.elim0
+  | q + 1, f, i => by
+    simp only [minFin]
+    rcases Fin.eq_castSucc_or_eq_last i with ⟨j, rfl⟩ | rfl
+    · exact le_trans (vmin_le_left _ _) (minFin_le init q (fun i => f i.castSucc) j)
+    · exact vmin_le_right _ _
+
+theorem minHead_le (init : K) (cnt : Nat) (a : Vec K n) (i : Fin n) (hi : i.val < cnt) : minHead init cnt a ≤ a[i] := by
+  unfold minHead
+  have := minFin_le init n (fun j => if j.val < cnt then a[j] else init) i
+  simpa only [hi, if_true] using this
+
+theorem le_vmax_l (a b : K) : a ≤ vmax a b := by
+  unfold vmax; split
+  · rename_i h; exact le_of_lt h
+  · exact le_refl a
+theorem le_vmax_r (a b : K) : b ≤ vmax a b := by
+  unfold vmax; split
+  · exact le_refl b
+  · rename_i h; exact not_lt.mp h
+
+/-- the first shift makes an entry non-negative as soon as the shift dominates `-1.5·min` of its block -/
+theorem shifted_nonneg (c15 v mn dS : K) (hc : 1 ≤ c15) (h0 : 0 ≤ dS) (hmin : mn ≤ v) (hd : -c15 * mn ≤ dS) : 0 ≤ v + dS := by
+  by_cases hv : 0 ≤ v
+  · linarith
+  · have hv' : v < 0 := not_le.mp hv
+    have hmn : mn < 0 := lt_of_le_of_lt hmin hv'
+    have : -mn ≤ -c15 * mn := by nlinarith
+    linarith
+
+theorem count_head (c : Nat) : ∀ (q : Nat), c ≤ q → (∑ i : Fin q, if i.val < c then (1 : K) else 0) = (c : K)
+  | 0, h => by
+    have : c = 0 := Nat.le_zero.mp h
+    subst this; simp
+  | q + 1, h => by
+    rw [Fin.sum_univ_castSucc]
+    simp only [Fin.coe_castSucc, Fin.val_last]
+    by_cases hc : c ≤ q
+    · rw [count_head c q hc]
+      have : ¬ q < c := Nat.not_lt.mpr hc
+      simp [this]
+    · have hcq : c = q + 1 := by omega
+      have hall : ∀ i : Fin q, i.val < c := fun i => by omega
+      simp only [hall, if_true, Finset.sum_const, Finset.card_univ, Fintype.card_fin, nsmul_eq_mul, mul_one]
+      have : q < c := by omega
+      simp [this, hcq]
+
+theorem sum_mul_zero_of_sum_zero {ι : Type} [Fintype ι] (a b : ι → K) (hb : ∀ i, 0 ≤ b i) (h : ∑ i, b i = 0) :
+    ∑ i, a i * b i = 0 := by
+  have hz := (Finset.sum_eq_zero_iff_of_nonneg (fun i _ => hb i)).mp h
+  exact Finset.sum_eq_zero fun i hi => by rw [hz i hi, mul_zero]
+
+/-- three non-negative families: a positive total of products forces a positive total of the second factors -/
+theorem pos_of_prod_pos {ι1 ι2 ι3 : Type} [Fintype ι1] [Fintype ι2] [Fintype ι3]
+    (a1 b1 : ι1 → K) (a2 b2 : ι2 → K) (a3 b3 : ι3 → K)
+    (hb1 : ∀ i, 0 ≤ b1 i) (hb2 : ∀ i, 0 ≤ b2 i) (hb3 : ∀ i, 0 ≤ b3 i)
+    (h : 0 < (∑ i, a1 i * b1 i) + (∑ i, a2 i * b2 i) + ∑ i, a3 i * b3 i) :
+    0 < (∑ i, b1 i) + (∑ i, b2 i) + ∑ i, b3 i := by
+  have n1 : 0 ≤ ∑ i, b1 i := Finset.sum_nonneg fun i _ => hb1 i
+  have n2 : 0 ≤ ∑ i, b2 i := Finset.sum_nonneg fun i _ => hb2 i
+  have n3 : 0 ≤ ∑ i, b3 i := Finset.sum_nonneg fun i _ => hb3 i
+  by_contra hcon
+  have hle : (∑ i, b1 i) + (∑ i, b2 i) + ∑ i, b3 i ≤ 0 := not_lt.mp hcon
+  have z1 : ∑ i, b1 i = 0 := by linarith
+  have z2 : ∑ i, b2 i = 0 := by linarith
+  have z3 : ∑ i, b3 i = 0 := by linarith
+  rw [sum_mul_zero_of_sum_zero a1 b1 hb1 z1, sum_mul_zero_of_sum_zero a2 b2 hb2 z2, sum_mul_zero_of_sum_zero a3 b3 hb3 z3] at h
+  linarith
+
+theorem pos_of_prod_pos_left {ι1 ι2 ι3 : Type} [Fintype ι1] [Fintype ι2] [Fintype ι3]
+    (a1 b1 : ι1 → K) (a2 b2 : ι2 → K) (a3 b3 : ι3 → K)
+    (ha1 : ∀ i, 0 ≤ a1 i) (ha2 : ∀ i, 0 ≤ a2 i) (ha3 : ∀ i, 0 ≤ a3 i)
+    (h : 0 < (∑ i, a1 i * b1 i) + (∑ i, a2 i * b2 i) + ∑ i, a3 i * b3 i) :
+    0 < (∑ i, a1 i) + (∑ i, a2 i) + ∑ i, a3 i := by
+  refine pos_of_prod_pos b1 a1 b2 a2 b3 a3 ha1 ha2 ha3 ?_
+  have e1 : (∑ i, b1 i * a1 i) = ∑ i, a1 i * b1 i := Finset.sum_congr rfl fun i _ => mul_comm _ _
+  have e2 : (∑ i, b2 i * a2 i) = ∑ i, a2 i * b2 i := Finset.sum_congr rfl fun i _ => mul_comm _ _
+  have e3 : (∑ i, b3 i * a3 i) = ∑ i, a3 i * b3 i := Finset.sum_congr rfl fun i _ => mul_comm _ _
+  rw [e1, e2, e3]; exact h
+
+theorem sum_head_shift (c : Nat) (hc : c ≤ n) (v : Vec K n) (d : K) :
+    (∑ i : Fin n, if i.val < c then v[i] + d else 0) = (∑ i : Fin n, if i.val < c then v[i] else 0) + (c : K) * d := by
+  rw [← count_head (K := K) c n hc, Finset.sum_mul, ← Finset.sum_add_distrib]
+  refine Finset.sum_congr rfl fun i _ => ?_
+  by_cases h : i.val < c <;> simp [h]
+
+theorem shift_chain (P1 P2 P3 : Prop) [Decidable P1] [Decidable P2] [Decidable P3] (x1 x2 x3 : K) :
+    let d1 := if P1 then vmax 0 x1 else 0
+    let d2 := if P2 then vmax d1 x2 else d1
+    let d3 := if P3 then vmax d2 x3 else d2
+    0 ≤ d3 ∧ (P1 → x1 ≤ d3) ∧ (P2 → x2 ≤ d3) ∧ (P3 → x3 ≤ d3) := by
+  intro d1 d2 d3
+  have h1 : 0 ≤ d1 := by simp only [d1]; split; exact le_vmax_l _ _; exact le_refl _
+  have h12 : d1 ≤ d2 := by simp only [d2]; split; exact le_vmax_l _ _; exact le_refl _
+  have h23 : d2 ≤ d3 := by simp only [d3]; split; exact le_vmax_l _ _; exact le_refl _
+  refine ⟨le_trans h1 (le_trans h12 h23), fun hp => ?_, fun hp => ?_, fun hp => ?_⟩
+  · have : x1 ≤ d1 := by simp only [d1, hp, if_true]; exact le_vmax_r _ _
+    exact le_trans this (le_trans h12 h23)
+  · have : x2 ≤ d2 := by simp only [d2, hp, if_true]; exact le_vmax_r _ _
+    exact le_trans this h23
+  · simp only [d3, hp, if_true]; exact le_vmax_r _ _
+
+/-- after the first shift every active slack and multiplier is non-negative -/
+theorem first_shift_nonneg (cs : Consts K) (d : Data K n p m) (w : Work K n p m) (h15 : 1 ≤ cs.c1_5) :
+    let dS := (mehrotraShift cs d w).1
+    let dZ := (mehrotraShift cs d w).2.1
+    (∀ i : Fin m, 0 ≤ w.s[i] + dS) ∧ (∀ i : Fin m, 0 ≤ w.z[i] + dZ) ∧
+    (∀ i : Fin n, i.val < d.lb.cnt → 0 ≤ w.s_lb[i] + dS) ∧ (∀ i : Fin n, i.val < d.lb.cnt → 0 ≤ w.z_lb[i] + dZ) ∧
+    (∀ i : Fin n, i.val < d.ub.cnt → 0 ≤ w.s_ub[i] + dS) ∧ (∀ i : Fin n, i.val < d.ub.cnt → 0 ≤ w.z_ub[i] + dZ) := by
+  have cS := shift_chain (m ≠ 0) (d.lb.cnt ≠ 0) (d.ub.cnt ≠ 0)
+    (-cs.c1_5 * minFin (w.s.getD 0 0) m fun i => w.s[i]) (-cs.c1_5 * minHead (w.s_lb.getD 0 0) d.lb.cnt w.s_lb)
+    (-cs.c1_5 * minHead (w.s_ub.getD 0 0) d.ub.cnt w.s_ub)
+  have cZ := shift_chain (m ≠ 0) (d.lb.cnt ≠ 0) (d.ub.cnt ≠ 0)
+    (-cs.c1_5 * minFin (w.z.getD 0 0) m fun i => w.z[i]) (-cs.c1_5 * minHead (w.z_lb.getD 0 0) d.lb.cnt w.z_lb)
+    (-cs.c1_5 * minHead (w.z_ub.getD 0 0) d.ub.cnt w.z_ub)
+  obtain ⟨s0, s1, s2, s3⟩ := cS
+  obtain ⟨z0, z1, z2, z3⟩ := cZ
+  refine ⟨fun i => ?_, fun i => ?_, fun i hi => ?_, fun i hi => ?_, fun i hi => ?_, fun i hi => ?_⟩
+  · have hm : m ≠ 0 := fun h => by subst h; exact i.elim0
+    exact shifted_nonneg cs.c1_5 _ _ _ h15 s0 (minFin_le _ m (fun i => w.s[i]) i) (s1 hm)
+  · have hm : m ≠ 0 := fun h => by subst h; exact i.elim0
+    exact shifted_nonneg cs.c1_5 _ _ _ h15 z0 (minFin_le _ m (fun i => w.z[i]) i) (z1 hm)
+  · have hl : d.lb.cnt ≠ 0 := by omega
+    exact shifted_nonneg cs.c1_5 _ _ _ h15 s0 (minHead_le _ _ w.s_lb i hi) (s2 hl)
+  · have hl : d.lb.cnt ≠ 0 := by omega
+    exact shifted_nonneg cs.c1_5 _ _ _ h15 z0 (minHead_le _ _ w.z_lb i hi) (z2 hl)
+  · have hl : d.ub.cnt ≠ 0 := by omega
+    exact shifted_nonneg cs.c1_5 _ _ _ h15 s0 (minHead_le _ _ w.s_ub i hi) (s3 hl)
+  · have hl : d.ub.cnt ≠ 0 := by omega
+    exact shifted_nonneg cs.c1_5 _ _ _ h15 z0 (minHead_le _ _ w.z_ub i hi) (z3 hl)
+
+theorem tp_eq (cs : Consts K) (d : Data K n p m) (w : Work K n p m) :
+    (mehrotraShift cs d w).2.2 =
+      (∑ i : Fin m, (w.s[i] + (mehrotraShift cs d w).1) * (w.z[i] + (mehrotraShift cs d w).2.1)) +
+      (∑ i : Fin n, (if i.val < d.lb.cnt then w.s_lb[i] + (mehrotraShift cs d w).1 else 0) *
+                    (if i.val < d.lb.cnt then w.z_lb[i] + (mehrotraShift cs d w).2.1 else 0)) +
+      (∑ i : Fin n, (if i.val < d.ub.cnt then w.s_ub[i] + (mehrotraShift cs d w).1 else 0) *
+                    (if i.val < d.ub.cnt then w.z_ub[i] + (mehrotraShift cs d w).2.1 else 0)) := by
+  simp only [mehrotraShift, sumFin_eq_sum]
+  congr 1
+  · congr 1
+    refine Finset.sum_congr rfl fun i _ => ?_
+    by_cases h : i.val < d.lb.cnt <;> simp [h]
+  · refine Finset.sum_congr rfl fun i _ => ?_
+    by_cases h : i.val < d.ub.cnt <;> simp [h]
+
+theorem denom_eq (d : Data K n p m) (hnl : d.lb.cnt ≤ n) (hnu : d.ub.cnt ≤ n) (z : Vec K m) (zl zu : Vec K n) (dZ : K) :
+    Vec.sum z + sumHead d.lb.cnt zl + sumHead d.ub.cnt zu + ((m + d.lb.cnt + d.ub.cnt : Nat) : K) * dZ =
+      (∑ i : Fin m, (z[i] + dZ)) + (∑ i : Fin n, if i.val < d.lb.cnt then zl[i] + dZ else 0) +
+      (∑ i : Fin n, if i.val < d.ub.cnt then zu[i] + dZ else 0) := by
+  rw [sum_head_shift d.lb.cnt hnl zl dZ, sum_head_shift d.ub.cnt hnu zu dZ, Finset.sum_add_distrib]
+  simp only [Vec.sum, sumHead, sumFin_eq_sum, Finset.sum_const, Finset.card_univ, Fintype.card_fin, nsmul_eq_mul, Nat.cast_add]
+  ring
+
+/-- **C08, the initial point is strictly inside the cone.** For every workspace the initial KKT solve may have produced,
+    after the two Mehrotra-style shifts every active slack and multiplier is strictly positive, provided the shifted
+    complementarity product is positive (it is whenever the slacks are not all below `1e-4`, the case the code resets) -/
+theorem mehrotra_in_cone (cs : Consts K) (d : Data K n p m) (w : Work K n p m) (hnl : d.lb.cnt ≤ n) (hnu : d.ub.cnt ≤ n)
+    (h15 : 1 ≤ cs.c1_5) (h05 : 0 < cs.c0_5) (htp : 0 < (mehrotraShift cs d w).2.2) : InCone d (mehrotraApply cs d w) := by
+  obtain ⟨ns, nz, nsl, nzl, nsu, nzu⟩ := first_shift_nonneg cs d w h15
+  have htp' := htp
+  rw [tp_eq] at htp'
+  -- positivity of both denominators
+  have hZ : 0 < Vec.sum w.z + sumHead d.lb.cnt w.z_lb + sumHead d.ub.cnt w.z_ub +
+      ((m + d.lb.cnt + d.ub.cnt : Nat) : K) * (mehrotraShift cs d w).2.1 := by
+    rw [denom_eq d hnl hnu]
+    refine pos_of_prod_pos _ _ _ _ _ _ (fun i => nz i) (fun i => ?_) (fun i => ?_) htp'
+    · by_cases h : i.val < d.lb.cnt <;> simp only [h, if_true, if_false, le_refl]; exact nzl i h
+    · by_cases h : i.val < d.ub.cnt <;> simp only [h, if_true, if_false, le_refl]; exact nzu i h
+  have hS : 0 < Vec.sum w.s + sumHead d.lb.cnt w.s_lb + sumHead d.ub.cnt w.s_ub +
+      ((m + d.lb.cnt + d.ub.cnt : Nat) : K) * (mehrotraShift cs d w).1 := by
+    rw [denom_eq d hnl hnu]
+    refine pos_of_prod_pos_left _ _ _ _ _ _ (fun i => ns i) (fun i => ?_) (fun i => ?_) htp'
+    · by_cases h : i.val < d.lb.cnt <;> simp only [h, if_true, if_false, le_refl]; exact nsl i h
+    · by_cases h : i.val < d.ub.cnt <;> simp only [h, if_true, if_false, le_refl]; exact nsu i h
+  have gS : 0 < cs.c0_5 * (mehrotraShift cs d w).2.2 /
+      (Vec.sum w.z + sumHead d.lb.cnt w.z_lb + sumHead d.ub.cnt w.z_ub + ((m + d.lb.cnt + d.ub.cnt : Nat) : K) * (mehrotraShift cs d w).2.1) :=
+    div_pos (mul_pos h05 htp) hZ
+  have gZ : 0 < cs.c0_5 * (mehrotraShift cs d w).2.2 /
+      (Vec.sum w.s + sumHead d.lb.cnt w.s_lb + sumHead d.ub.cnt w.s_ub + ((m + d.lb.cnt + d.ub.cnt : Nat) : K) * (mehrotraShift cs d w).1) :=
+    div_pos (mul_pos h05 htp) hS
+  unfold mehrotraApply
+  refine ⟨fun i => ?_, fun i => ?_, fun i hi => ?_, fun i hi => ?_, fun i hi => ?_, fun i hi => ?_⟩
+  · simp only [Fin.getElem_fin, Vector.getElem_ofFn]; have := ns i; simp only [Fin.getElem_fin] at this; linarith
+  · simp only [Fin.getElem_fin, Vector.getElem_ofFn]; have := nz i; simp only [Fin.getElem_fin] at this; linarith
+  · rw [headUpd_get']; simp only [hi, if_true]; have := nsl i hi; linarith
+  · rw [headUpd_get']; simp only [hi, if_true]; have := nzl i hi; linarith
+  · rw [headUpd_get']; simp only [hi, if_true]; have := nsu i hi; linarith
+  · rw [headUpd_get']; simp only [hi, if_true]; have := nzu i hi; linarith
+
+/-- the loop state `solve()` hands to the main loop is strictly inside the cone -/
+theorem initialPoint_in_cone (cs : Consts K) (s : Solver K n p m) (e : Env K n p m) (w0 : Work K n p m) (kkt1 : KKT K n p m)
+    (info1 : Info K) (refineOn : Bool) (hnl : s.data.lb.cnt ≤ n) (hnu : s.data.ub.cnt ≤ n) (h15 : 1 ≤ cs.c1_5) (h05 : 0 < cs.c0_5)
+    (hguard : m + s.data.lb.cnt + s.data.ub.cnt ≠ 0 →
+      0 < (mehrotraShift cs s.data (ipBeforeShift cs s e w0 kkt1 refineOn)).2.2) :
+    InCone s.data (initialPoint cs s e w0 kkt1 info1 refineOn).w := by
+  unfold initialPoint
+  simp only
+  by_cases h : m + s.data.lb.cnt + s.data.ub.cnt ≠ 0
+  · simp only [h, ne_eq, not_false_eq_true, if_true]
+    exact (mehrotra_in_cone cs s.data _ hnl hnu h15 h05 (hguard h)).of_fields rfl rfl rfl rfl rfl rfl
+  · have h0 : m + s.data.lb.cnt + s.data.ub.cnt = 0 := Decidable.not_not.mp h
+    have hm : m = 0 := by omega
+    have hl : s.data.lb.cnt = 0 := by omega
+    have hu : s.data.ub.cnt = 0 := by omega
+    subst hm
+    exact ⟨fun i => i.elim0, fun i => i.elim0, fun i hi => by omega, fun i hi => by omega, fun i hi => by omega, fun i hi => by omega⟩
+
+/-- **C08, every iterate `solve()` can return is strictly inside the cone**: the main loop started from the initial point
+    ends, at whatever exit, with positive slacks and multipliers on every active block (before unscaling and re-indexing) -/
+theorem solve_loop_in_cone (cs : Consts K) (sqrtF : K → K) (s : Solver K n p m) (perm : Vector (Fin (n + p + m)) (n + p + m))
+    (w0 : Work K n p m) (kkt1 : KKT K n p m) (info1 : Info K) (refineOn : Bool)
+    (hnl : s.data.lb.cnt ≤ n) (hnu : s.data.ub.cnt ≤ n) (h15 : 1 ≤ cs.c1_5) (h05 : 0 < cs.c0_5)
+    (hτ0 : 0 < s.st.tau) (hτ1 : s.st.tau < 1) (heps : 0 ≤ cs.machEps)
+    (hguard : m + s.data.lb.cnt + s.data.ub.cnt ≠ 0 →
+      0 < (mehrotraShift cs s.data (ipBeforeShift cs s (Solver.env cs sqrtF s perm) w0 kkt1 refineOn)).2.2) :
+    InCone s.data (mainLoop (Solver.env cs sqrtF s perm)
+      (initialPoint cs s (Solver.env cs sqrtF s perm) w0 kkt1 info1 refineOn)).1.w :=
+  mainLoop_in_cone (Solver.env cs sqrtF s perm) _ hτ0 hτ1 heps
+    (initialPoint_in_cone cs s _ w0 kkt1 info1 refineOn hnl hnu h15 h05 hguard)
 
 end cone
 end Piqp.C08
